@@ -188,4 +188,16 @@ byte `A` of text `T` stores exactly the row/column extents that counting newline
 def consCheck (T : List Nat) (t : Tree) (A : Nat) : Bool :=
   decide (A ≤ T.length) && consCheckAt (T.drop A) t
 
+/-- Decidable version of `EditOK` (Points.lean) given the old text `T` and the new text `T2`: the
+edit's byte offsets describe how `T2` arises from `T`, and its three points are the newline-counted
+row/column of those offsets (start, old end in `T`; new end in `T2`). -/
+def editOKCheck (T T2 : List Nat) (e : Edit) : Bool :=
+  decide (e.start.bytes ≤ e.old_end.bytes) && decide (e.old_end.bytes ≤ T.length) &&
+  decide (e.start.bytes ≤ e.new_end.bytes) && decide (e.new_end.bytes ≤ T2.length) &&
+  decide (T2 = T.take e.start.bytes ++ (T2.drop e.start.bytes).take (e.new_end.bytes - e.start.bytes)
+                ++ T.drop e.old_end.bytes) &&
+  decide (e.start = lengthOf (T.take e.start.bytes)) &&
+  decide (e.old_end = lengthOf (T.take e.old_end.bytes)) &&
+  decide (e.new_end = lengthOf (T2.take e.new_end.bytes))
+
 end TsVerif.C10
